@@ -12,6 +12,7 @@ import GeckoModel.Proofs.Coop
 import GeckoModel.Proofs.CoopEquiv
 import GeckoModel.Generated.Skeletons
 
+import GeckoModel.Model.Cancel
 namespace GeckoModel.C02
 open GeckoModel GeckoModel.Generated GeckoModel.Bits
 
@@ -281,5 +282,31 @@ example : Coop.selfStateWritten (.seq (.ev (.act ⟨.call, "self._writes_in_flig
       (.alt (.seq (.ev (.act ⟨.brT, "newvalue == existing"⟩)) .exit) (.ev (.act ⟨.call, "self.struct.set_value"⟩))) = false := by decide +kernel
 
 end Paths
+
+/-! ### the blocking client's session glue -/
+namespace Session
+open GeckoModel.Generated
+
+/-- **every connection of the blocking client gets declaration objects of its own** (over the regenerated skeleton of
+`GeckoSpa._on_config_received`): on every path that ends normally the pack, the config and the log declaration classes are each
+INSTANTIATED (once each, in this order, over this connection's structure) before the full block is requested - none is looked up in
+something that outlives the connection (rounds 14 and 15: declaration objects kept per process read another connection's block) -/
+theorem blocking_declarations_are_made_for_each_connection :
+    Coop.everyNormalEndDid (fun a => a.kind == .call && a.name == "GeckoPack") Skeletons.sk_spa__GeckoSpa__on_config_received = true ∧
+    Coop.everyNormalEndDid (fun a => a.kind == .call && a.name == "GeckoConfigStruct") Skeletons.sk_spa__GeckoSpa__on_config_received = true ∧
+    Coop.everyNormalEndDid (fun a => a.kind == .call && a.name == "GeckoLogStruct") Skeletons.sk_spa__GeckoSpa__on_config_received = true ∧
+    Coop.everyNormalEndDid (fun a => a.kind == .call && a.name == "self.struct.retry_request") Skeletons.sk_spa__GeckoSpa__on_config_received = true ∧
+    ((Coop.actions .call Skeletons.sk_spa__GeckoSpa__on_config_received).filter fun n => n == "GeckoPack" || n == "GeckoConfigStruct" || n == "GeckoLogStruct") =
+      ["GeckoPack", "GeckoConfigStruct", "GeckoLogStruct"] := by decide +kernel
+
+/-- **every write the blocking structure hands over is sent**: `GeckoSpa._on_set_value` has no early return - on its only path it
+registers the acknowledgement handler and queues ONE set-value command (over the regenerated skeleton; round 15: a command equal
+to the client's mirror was dropped while the report of the previous write was still under way) -/
+theorem every_blocking_set_value_is_sent :
+    Coop.everyNormalEndDid (fun a => a.kind == .call && a.name == "queue_send") Skeletons.sk_spa__GeckoSpa__on_set_value = true ∧
+    Coop.everyNormalEndDid (fun a => a.kind == .call && a.name == "self.add_receive_handler") Skeletons.sk_spa__GeckoSpa__on_set_value = true ∧
+    (Coop.actions .call Skeletons.sk_spa__GeckoSpa__on_set_value).count "queue_send" = 1 ∧
+    Coop.outs Skeletons.sk_spa__GeckoSpa__on_set_value = [.fall] := by decide +kernel
+end Session
 
 end GeckoModel.C02
